@@ -47,15 +47,18 @@ def discharge(ob, timeout_s=10.0, use_cvc5=True, want_model=True):
     t0 = time.time()
     if getattr(ob, "trivial", False):
         return {"status": "unsat", "solver": "simplifier", "seconds": 0.0}
-    s = z3.Solver()
-    s.set("timeout", int(timeout_s * 1000))
-    for h in ob.hyps:
-        s.add(h)
-    s.add(z3.Not(ob.goal))
-    try:
-        r = s.check()
-    except z3.Z3Exception as e:
-        r = z3.unknown
+    def z3_try(budget):
+        s = z3.Solver()
+        s.set("timeout", int(budget * 1000))
+        for h in ob.hyps:
+            s.add(h)
+        s.add(z3.Not(ob.goal))
+        try:
+            return s.check(), s
+        except z3.Z3Exception:
+            return z3.unknown, s
+    first = min(3.0, timeout_s)
+    r, s = z3_try(first)
     dt = time.time() - t0
     if r == z3.unsat:
         return {"status": "unsat", "solver": "z3-5.1.0", "seconds": round(dt, 3)}
@@ -93,6 +96,17 @@ def discharge(ob, timeout_s=10.0, use_cvc5=True, want_model=True):
             res["cvc5"] = "timeout"
         except Exception as e:
             res["cvc5"] = f"error {e}"
+    if timeout_s > first:
+        r, s = z3_try(timeout_s)
+        if r == z3.unsat:
+            return {"status": "unsat", "solver": "z3-5.1.0", "seconds": round(time.time() - t0, 3)}
+        if r == z3.sat:
+            m = s.model()
+            out = {"status": "sat", "solver": "z3-5.1.0", "seconds": round(time.time() - t0, 3), "model_txt": str(m)[:2000]}
+            if want_model and ob.inputs:
+                out["model"] = {k: model_value(m, v.z) for k, v in ob.inputs.items() if hasattr(v, "z")}
+            return out
+        res["seconds"] = round(time.time() - t0, 3)
     return res
 
 
